@@ -943,7 +943,9 @@ impl Melda {
                         let rt_r = rt
                             .lock()
                             .expect("failed_to_acquire_revision_tree_for_reading");
-                        let revision = rt_r.get_winner().expect("object_has_no_winner");
+                        let revision = rt_r
+                            .get_winner()
+                            .ok_or_else(|| anyhow!("object_has_no_winner"))?;
                         self.data
                             .read()
                             .expect("cannot_acquire_data_for_reading")
@@ -1622,16 +1624,12 @@ impl Melda {
         docs_r
             .par_iter()
             .filter(|(uuid, _)| !extracted_objects.contains_key(*uuid))
-            .for_each(|(uuid, _)| {
-                self.delete_object(uuid).expect("unable_to_delete_object");
-            });
+            .try_for_each(|(uuid, _)| self.delete_object(uuid).map(|_| ()))?;
         drop(docs_r);
         // Check for newly created and updated objects
-        extracted_objects.into_par_iter().for_each(|(uuid, obj)| {
-            //for (uuid, obj) in extracted_objects {
-            self.update_object(&uuid, obj)
-                .expect("unable_to_update_object");
-        });
+        extracted_objects
+            .into_par_iter()
+            .try_for_each(|(uuid, obj)| self.update_object(&uuid, obj).map(|_| ()))?;
         Ok(root.to_string())
     }
 
